@@ -36,7 +36,10 @@ def hx(s):
     return "_".join("%x" % ord(c) for c in s) or "-"
 
 
-CLEAN = "abcdefghijklmnopqrstuvwxyzABCXYZ0123456789 _-.:;()[]{}+=*/\\'\"!?@#$%^&|<>~` é中"
+CLEAN = ("abcdefghijklmnopqrstuvwxyzABCXYZ0123456789 _-.:;()[]{}+=*/\\'\"!?@#$%^&|<>~` é中"
+         # characters that some line-splitting primitives (str.splitlines) treat as row ends although
+         # the file's rows end in "\n" only: ordinary field content for the writer and the reader
+         "\t\x0b\x0c\x1c\x1d\x1e\x85\u2028\u2029")
 DIRTY = ",\n\r"
 
 
